@@ -275,7 +275,7 @@ func bulkString(t *rapid.T) string {
 }
 
 func genLexString(t *rapid.T) string {
-	if rapid.IntRange(0, 149).Draw(t, "bulk") == 0 {
+	if rapid.IntRange(0, env.Pick(149, 1999)).Draw(t, "bulk") == 0 {
 		return bulkString(t)
 	}
 	n := rapid.IntRange(1, 12).Draw(t, "pieces")
